@@ -401,6 +401,9 @@ def check_c01(desc, ot, backend, areacs=None):
         yc = " ".join((ot.batch.get("FexKernel", {}).get("y_cur") or "").split())
         if yc.replace(" ", "") != "y+yistart":
             probs.append(f"FexKernel: y_cur = {yc!r}, expected y + yistart")
+        ud = (ot.batch.get("FexKernel", {}).get("udata") or "").replace(" ", "")
+        if ud != "&d_udata[cur]":
+            probs.append(f"FexKernel: udata = {ud!r}, expected &d_udata[cur]")
         if ot.lhs_offsets.get("FexKernel", {"yistart"}) != {"yistart"}:
             probs.append("FexKernel: a ydot target is not offset by yistart")
         if probs:
@@ -524,6 +527,9 @@ def check_c03_single(desc, ot, backend, files):
             yc = (ot.batch.get("JacKernel", {}).get("y_cur") or "").replace(" ", "")
             if yc != "y+yistart":
                 probs.append(f"JacKernel: y_cur = {yc!r}, expected y + yistart")
+            ud = (ot.batch.get("JacKernel", {}).get("udata") or "").replace(" ", "")
+            if ud != "&d_udata[cur]":
+                probs.append(f"JacKernel: udata = {ud!r}, expected &d_udata[cur]")
             if ot.lhs_offsets.get("JacKernel", {"jistart"}) != {"jistart"}:
                 probs.append("JacKernel: a data target is not offset by jistart")
             if probs:
